@@ -5,3 +5,5 @@ import CspuzModel.Properties.C08
 #print axioms Cspuz.C08.C08_grid_line
 #print axioms Cspuz.C08.C08_grid_diag_sound
 #print axioms Cspuz.C08.C08_grid_diag_complete
+#print axioms Cspuz.C08.C08_planar
+#print axioms Cspuz.C08.C08_grid
